@@ -361,6 +361,9 @@ func (c *Config) validateCircuitBreaker() error {
 		if c.CircuitBreaker.IntervalSeconds <= 0 {
 			return fmt.Errorf("circuit breaker interval must be positive (got %d)", c.CircuitBreaker.IntervalSeconds)
 		}
+		if c.CircuitBreaker.MaxRequests > 0 && c.CircuitBreaker.MaxRequests < c.CircuitBreaker.SuccessThreshold {
+			return fmt.Errorf("circuit breaker max requests (%d) must be at least the success threshold (%d), otherwise the breaker can never close again", c.CircuitBreaker.MaxRequests, c.CircuitBreaker.SuccessThreshold)
+		}
 	}
 	return nil
 }
